@@ -33,7 +33,14 @@ RULE = ('input classes enumerated (pupil/focal array: square even/odd, non-squar
         'configuration, with complex64 data, or mixed.  Histories: 3..14 fixed-sampling / to_fpm_and_back calls at FIXED array sizes '
         '(function and Wavefront form, both methods, shifted and unshifted, new physical scalars every step, precision switches), the '
         'last step float64.  Repeat cases: the same call again with the same argument objects (shift as tuple / list / float64, float32, '
-        'int ndarray / numpy scalars; samples as int / tuple / numpy integers; data in six memory layouts).  Non-trivial: the field has '
+        'int ndarray / numpy scalars; samples as int / tuple / numpy integers; data in six memory layouts).  Form cases (class E, '
+        'vp/propforms.py): fixed sampling (both routes, both methods), Wavefront.focus / unfocus (data and reported dx) and the three '
+        'spacing helpers in a canonical form and then in every other accepted form of the same numbers (field dtype kinds incl. integer '
+        '/ boolean through czt, containers, numpy / integer / 0-d scalars, positional, omitted defaults after other explicit values, '
+        'Wavefront methods).  Foreign-history cases (class F): the other consumers of fftrange / make_xy_grid (incl. the RichData axes '
+        'at the spacing Wavefront.focus will report) / forward_ft_unit and of the executors (incl. the adjoint routines at the same '
+        'cache keys) run first with every returned array edited in place, then the routes and a tilted pupil built from the harness\' '
+        'own coordinates are judged.  Non-trivial: the field has '
         '>= 2 non-zero samples; distinct = distinct descriptor (class, shapes, physical scalars, tilt/shift, sub-seed).')
 ASSUMPTIONS = ['Fraunhofer model: E(X,Y) = sum a_j exp(-2 pi i (x_j X + y_j Y)/(lambda f)) with pupil samples at '
                '(index - n//2)*dx; units mm (pupil, f) and um (focal plane, lambda) as documented by prysm',
@@ -47,7 +54,12 @@ ASSUMPTIONS = ['Fraunhofer model: E(X,Y) = sum a_j exp(-2 pi i (x_j X + y_j Y)/(
                'single precision (complex64 data, float32 configuration for mdft and for the reported coordinate grids, float32 shift '
                'container): max(1e-3, 1000 eps32 * kernel phase) of that bound (C01\'s rule), calls whose tolerance would exceed 3e-2 '
                'excluded and counted; fitted slopes 1e-9 rad / 2e-3 rad (float32 round-off measured <= 1.5e-6)',
-               'integer / boolean arrays are real fields (mdft and FFT route; czt on integer input is C01\'s ledgered finding and is not judged here)',
+               'integer / boolean arrays are real fields (both methods and the FFT route)',
+               'accepted argument forms are fixed from the reference tree (/repo @ faa8443, vp/propforms.py); a form must reproduce the '
+               'canonical result to 1e-12 (float32-carrying forms / single precision 1e-3) of max(max|canonical|, output bound); a '
+               'numpy.float32 physical scalar makes Q / the reported dx float32 arithmetic: the contracts judge such calls at the single '
+               'precision tolerances (helpers: 1e-5)',
+               'foreign traffic is not judged; returned arrays belong to the caller; a changed config.precision is reported under its own key',
                'repeat laws: deterministic routines, a later call with the same argument objects reproduces the first to 10 eps; results '
                'are copied as soon as they are returned',
                'numpy matmul / exp in float64 and long-double phase reduction in the reference model']
@@ -56,7 +68,7 @@ REQUIRED = ['focus_fixed_sampling.field-at-requested-coordinates', 'unfocus_fixe
             'tilt->displacement.fft', 'tilt->displacement.fixed', 'shift-translates-image', 'spot->tilt.fft',
             'spot->tilt.fixed', 'Q_for_sampling.closed-form', 'pupil_sample_to_psf_sample.closed-form',
             'psf_sample_to_pupil_sample.closed-form', 'spacing.roundtrip', 'history.ops', 'repeat.same-objects',
-            'alias.container-independence']
+            'alias.container-independence', 'form.equivalence', 'foreign.traffic']
 
 RTOL = 1e-9
 CTX = None
@@ -133,11 +145,11 @@ def _merge(desc):
 FF_NAMES = ['wavefunction', 'input_dx', 'prop_dist', 'wavelength', 'output_dx', 'output_samples', 'shift', 'method']
 
 
-def _tolerance(method, w, idx, odx, wvl, efl, samples, shift_samples, shift_container, scale, c):
+def _tolerance(method, w, idx, odx, wvl, efl, samples, shift_samples, shift_container, scale, c, force_single=False):
     """(tol, single): float64 -- RTOL of the fitted reference maximum (raised with the kernel phase for large arrays).  Single precision (complex64 data, the float32
     configuration for mdft, a float32 shift container) -- C01's rule: max(1e-3, 1000 eps32 * kernel phase) of the bound
     |c| * sum|w| on every output sample; (None, True) when that would exceed 3e-2 (ill-conditioned in float32: skip + count)."""
-    single = is_single(w.dtype) or (method == 'mdft' and conf_bits() == 32) or low_precision(shift_container)
+    single = force_single or is_single(w.dtype) or (method == 'mdft' and conf_bits() == 32) or low_precision(shift_container)
     Qp = tuple(wvl * efl / (n * idx * odx) for n in w.shape)
     if not single:
         # RTOL of the fitted maximum; for large arrays (chirp phases of 1e4 rad) raised to 1000 eps64 * kernel phase of the bound
@@ -156,9 +168,7 @@ def _check_fixed(route, a, out):
     if w.ndim != 2 or method not in ('mdft', 'czt') or w.dtype.kind not in 'fciub':
         return
     if w.dtype.kind in 'iub':
-        if method == 'czt':
-            return             # integer / boolean arrays through czt: C01's ledgered finding (chirps built in the input dtype)
-        w = w.astype(np.float64)
+        w = w.astype(np.float64)          # an integer / boolean image is a real field (both methods)
     samples = tuple(int(s) for s in _pair(a['output_samples']))
     sx, sy = (float(s) for s in _pair(a['shift']))
     idx, odx = float(a['input_dx']), float(a['output_dx'])
@@ -185,7 +195,11 @@ def _check_fixed(route, a, out):
         CTX.skip('reference-field-vanishes')
         return
     err, scale, c = D.scale_free_error(out, ref, modulus=shifted)
-    tol, single = _tolerance(method, w, idx, odx, wvl, efl, samples, (sx / odx, sy / odx), a['shift'], scale, c)
+    # single precision also when a physical scalar arrives as numpy.float32 (Q is then float32 arithmetic) and for an integer /
+    # boolean array through czt in the float32 configuration (the chirps are built in the configured precision)
+    force = (any(low_precision(a[k_]) for k_ in ('input_dx', 'prop_dist', 'wavelength', 'output_dx'))
+             or (method == 'czt' and np.asarray(a['wavefunction']).dtype.kind in 'iub' and conf_bits() == 32))
+    tol, single = _tolerance(method, w, idx, odx, wvl, efl, samples, (sx / odx, sy / odx), a['shift'], scale, c, force_single=force)
     if tol is None:
         CTX.observe(monitor, -1)
         CTX.skip('float32: kernel phase beyond the resolution of the working precision (tolerance would exceed 3e-2)')
@@ -259,7 +273,8 @@ def _check_fft(route, self, efl, Q, result, data_before):
         CTX.skip('reference-field-vanishes')
         return
     err, scale, c = D.scale_free_error(out, ref)
-    single = is_single(a.dtype) or conf_bits() == 32      # float32 configuration: the reported coordinate grids are float32
+    # float32 configuration: the reported coordinate grids are float32; numpy.float32 dx / wavelength / efl: the reported dx is float32 arithmetic
+    single = is_single(a.dtype) or conf_bits() == 32 or any(low_precision(v) for v in (self.dx, self.wavelength, efl, Q))
     # single precision: FFT round-off / coordinate rounding ~ eps32 * phase of the bound |c| sum|a| on every output sample (1e-3 is >= 3 decades above)
     tol = 1e-3 * abs(c) * float(np.sum(np.abs(a))) if single else RTOL * scale
     if not (scale > 0 and err <= tol):
@@ -279,10 +294,10 @@ def post_wf_unfocus(token, args, kwargs, result):
     _check_fft('unfocus', a['self'], a['efl'], a['Q'], result, token)
 
 
-def _scalar_close(monitor, got, ref, key, what, desc):
+def _scalar_close(monitor, got, ref, key, what, desc, lowp=False):
     CTX.observe(monitor)
     try:
-        ok = abs(float(got) - ref) <= 1e-14 * abs(ref)
+        ok = abs(float(got) - ref) <= (1e-5 if lowp else 1e-14) * abs(ref)      # numpy.float32 arguments: float32 arithmetic (eps 6e-8)
     except Exception:
         ok = False
     if not ok:
@@ -296,7 +311,7 @@ def post_Q_for_sampling(token, args, kwargs, result):
     except Exception:
         return  # non-scalar use, out of this monitor's domain
     _scalar_close('Q_for_sampling.closed-form', result, ref, 'C03/Q_for_sampling',
-                  'Q_for_sampling != (lambda z / D) / dx_out', _merge({'fn': 'Q_for_sampling', **{k: float(v) for k, v in a.items()}}))
+                  'Q_for_sampling != (lambda z / D) / dx_out', _merge({'fn': 'Q_for_sampling', **{k: float(v) for k, v in a.items()}}), lowp=any(low_precision(v) for v in a.values()))
 
 
 def post_pupil_to_psf(token, args, kwargs, result):
@@ -306,7 +321,7 @@ def post_pupil_to_psf(token, args, kwargs, result):
     except Exception:
         return
     _scalar_close('pupil_sample_to_psf_sample.closed-form', result, ref, 'C03/pupil_sample_to_psf_sample',
-                  'pupil_sample_to_psf_sample != lambda f / (N dx)', _merge({'fn': 'pupil_sample_to_psf_sample', **{k: float(v) for k, v in a.items()}}))
+                  'pupil_sample_to_psf_sample != lambda f / (N dx)', _merge({'fn': 'pupil_sample_to_psf_sample', **{k: float(v) for k, v in a.items()}}), lowp=any(low_precision(v) for v in a.values()))
 
 
 def post_psf_to_pupil(token, args, kwargs, result):
@@ -316,7 +331,7 @@ def post_psf_to_pupil(token, args, kwargs, result):
     except Exception:
         return
     _scalar_close('psf_sample_to_pupil_sample.closed-form', result, ref, 'C03/psf_sample_to_pupil_sample',
-                  'psf_sample_to_pupil_sample != lambda f / (N dx)', _merge({'fn': 'psf_sample_to_pupil_sample', **{k: float(v) for k, v in a.items()}}))
+                  'psf_sample_to_pupil_sample != lambda f / (N dx)', _merge({'fn': 'psf_sample_to_pupil_sample', **{k: float(v) for k, v in a.items()}}), lowp=any(low_precision(v) for v in a.values()))
 
 
 def install():
@@ -394,10 +409,10 @@ def cnormal(rng, shape):
 
 def field_array(seed, shape, k, method='mdft'):
     """Random field regenerated from the sub-seed: complex, or (every 6th case) real-valued -- of which every other one is an
-    integer or boolean image (a 0/1 aperture mask) when the route is mdft (czt on integer input is C01's ledgered finding)."""
+    integer or boolean image (a 0/1 aperture mask), through either method."""
     r = np.random.default_rng(seed)
     if k % 6 == 5:        # k: per-case variant number
-        if (k // 6) % 2 and method == 'mdft':
+        if (k // 6) % 2:
             return (r.random(shape) < 0.7) if (k // 12) % 2 else r.integers(0, 5, shape)
         return r.standard_normal(shape)
     return cnormal(r, shape)
@@ -453,6 +468,8 @@ def _run(ctx):
     _clear_caches()
     timed('history', wl_history, ctx)
     timed('repeat', wl_repeat, ctx)
+    timed('forms', wl_forms, ctx)
+    timed('foreign', wl_foreign, ctx)
     ctx.note('workload_seconds(first shard)', secs)
     _clear_caches()
 
@@ -1082,6 +1099,175 @@ def wl_repeat(ctx):
                                     shift_object_now=[float(v) for v in shc])
         finally:
             CUR = None
+    _clear_caches()
+
+
+# ------------------------------------------------------------------------------------------ class E: argument forms
+FORM_ROUTINES = ('focus_fixed_sampling', 'unfocus_fixed_sampling', 'Wavefront.focus', 'Wavefront.unfocus', 'Q_for_sampling',
+                 'pupil_sample_to_psf_sample', 'psf_sample_to_pupil_sample')
+
+
+def wl_forms(ctx):
+    """Class E (vp/propforms.py): every routine of the property in its canonical form (complex128 data, python floats / tuples,
+    keywords, explicit defaults) and then in every other accepted form of the same numbers -- field dtype kinds (real-dtype,
+    integer, boolean vs the complex copy; both methods, both directions), shift / sample counts in other containers, numpy and
+    integer scalars, 0-d arrays, positional calls, omitted defaults after a call with other explicit values, the Wavefront
+    method form.  Each form must reproduce the canonical result (Wavefront.focus / unfocus: data AND reported dx), and each call
+    is judged by the contracts against the physical model at the coordinates it reports / was asked for."""
+    global CUR
+    from .. import propforms as PF
+    from prysm import propagation as P
+    from ..util import precision
+    reps = ctx.pick(5, 600)
+    k = -1
+    for rep in range(reps):
+        for routine in FORM_ROUTINES:
+            for kind in PF.FIELD_KINDS:
+                k += 1
+                if not ctx.mine(k):
+                    continue
+                helper = routine in ('Q_for_sampling', 'pupil_sample_to_psf_sample', 'psf_sample_to_pupil_sample')
+                if helper and kind != 'complex':
+                    continue
+                rng = case_rng(ctx, 9, k)
+                bits = 32 if (k // ctx.nshards) % 5 == 4 else 64
+                single = bits == 32
+                desc = {'wl': 'forms', 'routine': routine, 'field_kind': kind, 'precision': bits, 'k': k, 'class': f'forms:{routine}:{kind}:p{bits}'}
+                if not routine.startswith('Wavefront.'):
+                    vals = PF.draw_values(routine, rng, kind)
+                    desc['values'] = {a_: v_ for a_, v_ in vals.items() if not isinstance(v_, np.ndarray)}
+                    CUR = desc
+                    ctx.case(desc)
+                    with precision(bits):
+                        PF.judge_forms(ctx, 'C03', routine, vals, desc, single=single and not helper, field_kinds={'wavefunction': kind})
+                    continue
+                # Wavefront.focus / unfocus: data and the reported spacing
+                route = routine.split('.')[1]
+                N = int(rng.integers(2, 10))
+                Q = float([1, 2, 3, 1.5, 2.5, 1.25][int(rng.integers(6))])
+                wvl, efl, dx = [0.5, 0.625, 1.0, 2.0][int(rng.integers(4))], [64.0, 100.0, 250.0][int(rng.integers(3))], [0.125, 0.25, 1.0, 4.0][int(rng.integers(4))]
+                a0 = PF.make_field(kind, (N, N), int(rng.integers(2**31 - 1)))
+                desc.update(N=N, Q=Q, wavelength=wvl, efl=efl, dx=dx)
+                CUR = desc
+                ctx.case(desc, nontrivial=int(np.count_nonzero(a0)) >= 2)
+                space = 'pupil' if route == 'focus' else 'psf'
+
+                def run(a=None, wvl_=wvl, dx_=dx, efl_=efl, Q_=Q, style='kw'):
+                    w = P.Wavefront(np.array(a0, dtype=complex) if a is None else a, wvl_, dx_, space=space)
+                    m = getattr(w, route)
+                    o = m(efl=efl_, Q=Q_) if style == 'kw' else (m(efl_, Q_) if style == 'pos' else m(efl_))
+                    return np.array(o.data, copy=True), float(o.dx)
+                with precision(bits):
+                    ref = [None]
+                    with ctx.guard(f'C03/Wavefront.{route}/form:canonical', desc):
+                        ref[0] = run()
+                    if ref[0] is None:
+                        continue
+                    forms = [('call', 'positional', lambda: run(style='pos'), False)]
+                    if Q == 2:
+                        def omitted():
+                            run(Q_=3)
+                            return run(style='omit')
+                        forms.append(('Q', 'omitted(default)', omitted, False))
+                    for nm, val in (('Q', Q), ('efl', efl), ('wavelength', wvl), ('dx', dx)):
+                        for label, make, lowp in PF.scalar_forms(val):
+                            kwn = {'Q': 'Q_', 'efl': 'efl_', 'wavelength': 'wvl_', 'dx': 'dx_'}[nm]
+                            forms.append((nm, label, (lambda kwn=kwn, make=make: run(**{kwn: make()})), lowp))
+                    for label, dt, sgl in PF.field_forms(kind):
+                        forms.append(('cmplx_field', PF.DTYPE_CLASS[np.dtype(dt).kind],
+                                      (lambda dt=dt: run(a=np.array(a0.real if np.dtype(dt).kind != 'c' else a0).astype(dt))), sgl))
+                    for arg, label, call, lowp in forms:
+                        key = f'C03/Wavefront.{route}/form:{arg}={label}'
+                        d2 = dict(desc, form=f'{arg}={label}')
+                        got = [None]
+                        with ctx.guard(key, d2):
+                            got[0] = call()
+                        if got[0] is None:
+                            continue
+                        ctx.observe('form.equivalence')
+                        tol = PF.TOL_SINGLE if (single or lowp) else PF.TOL_EXACT
+                        d = PF.rel_diff(got[0][0], ref[0][0])
+                        ddx = abs(got[0][1] - ref[0][1]) / abs(ref[0][1])
+                        if not (d <= tol and ddx <= (1e-5 if lowp else 1e-14)):
+                            ctx.violation(key + '/result-differs-from-canonical-form',
+                                          f'Wavefront.{route}: data or reported dx for {arg} given as {label} differ from the canonical call', d2,
+                                          rel_diff=d, dx_rel_diff=ddx, tol=tol)
+    CUR = None
+
+
+# ------------------------------------------------------------------------------------------ class F: cross-module histories
+def wl_foreign(ctx):
+    """Class F: the other public consumers of fftrange / forward_ft_unit / make_xy_grid (incl. the RichData axes) and the shared
+    executors run first -- at the axis lengths AND the spacings (input, requested and the one Wavefront.focus will report) of
+    the case, with non-zero shifts, ndarray containers, precision 32, every returned array edited in place -- then the routes of
+    the property are driven (FFT route with its reported coordinates, fixed sampling in function and Wavefront form, a tilted
+    pupil built from the harness' own coordinates) and judged by the contracts and the tilt law, nothing cleared in between."""
+    global CUR
+    from .. import propforms as PF
+    from prysm import propagation as P
+    n = ctx.pick(24, 7200)
+    for k in range(n):
+        if not ctx.mine(k):
+            continue
+        rng = case_rng(ctx, 10, k)
+        N = int(rng.integers(4, ctx.pick(13, 33)))
+        Q = [1, 2, 3, 1.5][int(rng.integers(4))]
+        Npad = math.ceil(N * Q)
+        wvl, efl, dx = physical(rng)
+        smp = (int(rng.integers(8, ctx.pick(17, 33))), int(rng.integers(8, ctx.pick(17, 33))))
+        if rng.random() < 0.5:
+            smp = (smp[0], smp[0])
+        rep_dx = (efl * wvl) / (dx * Npad)                       # the spacing Wavefront.focus reports
+        odx = wvl * efl / (N * dx) * logu(rng, 0.3, 2.0)         # a requested focal spacing
+        method = ('mdft', 'czt')[int(rng.integers(2))]
+        seed = int(rng.integers(2**31 - 1))
+        desc = {'wl': 'foreign', 'class': f'foreign-traffic-then-routes:{method}:{_qclass(Q)}', 'N': N, 'Q': Q, 'samples': smp, 'method': method,
+                'wavelength': wvl, 'efl': efl, 'dx': dx, 'odx': odx, 'seed': seed, 'k': k}
+        CUR = desc
+        ctx.case(desc)
+        PF.foreign_traffic(ctx, rng, [N, Npad, smp[0], smp[1]], dxs=(dx, rep_dx, odx), heavy=(k % 3 == 0), prefix='C03', desc=desc)
+        a = cnormal(np.random.default_rng(seed), (N, N))
+        s_ = draw_shift(rng, SHIFTS[int(rng.integers(3))])
+        shift = (s_[0] * odx, s_[1] * odx)
+        key = fixed_key('focus', method, (N, N), smp, s_ != (0.0, 0.0))
+        with ctx.guard(_raise_key(method, key, '0' if s_ == (0.0, 0.0) else 'x'), desc, what=_raise_what(method, '0' if s_ == (0.0, 0.0) else 'x')):
+            f = P.Wavefront(a, wvl, dx).focus(efl, Q)                                            # contract: field at the reported coordinates
+            P.Wavefront(np.array(f.data, copy=True), wvl, float(f.dx), space='psf').unfocus(efl, 1)
+            try:        # the adjoint routines (another property's consumers of the same cached bases) at exactly the keys used below
+                gb = cnormal(np.random.default_rng(seed + 1), smp)
+                P.focus_fixed_sampling_backprop(gb, dx, efl, wvl, odx, (N, N), shift=shift, method='mdft')
+                P.focus_fixed_sampling_backprop(gb, dx, efl, wvl, odx, (N, N), method='mdft')
+                P.unfocus_fixed_sampling_backprop(cnormal(np.random.default_rng(seed + 2), (N, N)), odx, efl, wvl, dx, smp, shift=(0.5 * dx, -dx), method='mdft')
+            except Exception as e:  # noqa -- foreign routine
+                ctx.event(f'foreign-traffic-raised:{type(e).__name__}')
+            P.focus_fixed_sampling(a, dx, efl, wvl, odx, smp, shift=shift, method=method)
+            g = P.Wavefront(a, wvl, dx).focus_fixed_sampling(efl, odx, smp, method=method)
+            P.Wavefront(np.array(g.data, copy=True), wvl, odx, space='psf').unfocus_fixed_sampling(efl, dx, N, shift=(0.5 * dx, -dx), method=method)
+            # reported coordinates of a fixed-sampling result: sample (i - n//2) * dx on each axis (harness' own arithmetic)
+            inten = g.intensity
+            gx, gy = np.asarray(inten.x), np.asarray(inten.y)
+            ex = (np.arange(smp[1]) - smp[1] // 2) * odx
+            ey = (np.arange(smp[0]) - smp[0] // 2) * odx
+            ok = gx.shape == tuple(smp) and np.allclose(gx, ex[None, :], rtol=0, atol=1e-9 * odx * max(smp)) and \
+                np.allclose(gy, ey[:, None], rtol=0, atol=1e-9 * odx * max(smp))
+            ctx.require('tilt->displacement.fixed', ok, key + '/reported-coordinates',
+                        'Wavefront.focus_fixed_sampling: the reported x / y are not (index - n//2) * dx [after foreign traffic]', desc)
+            if float(Q).is_integer():
+                # k waves of tilt across D = N dx, built from the harness' own coordinates: peak at k lambda f / D in the reported grid
+                kmax = max(1, N // 2 - 1)
+                kx, ky = int(rng.integers(-kmax, kmax + 1)), int(rng.integers(-kmax, kmax + 1))
+                xs = (np.arange(N) - N // 2) * dx
+                t = np.exp(2j * np.pi * (kx * xs[None, :] + ky * xs[:, None]) / (N * dx))
+                out = P.Wavefront(t, wvl, dx).focus(efl, Q)
+                inten = out.intensity
+                iy, ix = _peak(out.data)
+                px, py = float(np.asarray(inten.x)[iy, ix]), float(np.asarray(inten.y)[iy, ix])
+                ex_, ey_ = D.tilt_displacement(kx, N * dx, wvl, efl), D.tilt_displacement(ky, N * dx, wvl, efl)
+                tol = 1e-9 * abs(float(out.dx)) * Npad
+                ctx.require('tilt->displacement.fft', abs(px - ex_) <= tol and abs(py - ey_) <= tol, f'C03/Wavefront.focus/fft/{_qclass(Q)}',
+                            'Wavefront.focus: a pupil with k waves of tilt does not peak at k*lambda*f/D in the reported coordinates [after foreign traffic]',
+                            dict(desc, waves=(kx, ky)), peak_xy=(px, py), expected_xy=(ex_, ey_), reported_dx=float(out.dx))
+    CUR = None
     _clear_caches()
 
 
